@@ -290,7 +290,8 @@ def to_case(ob):
     from rtc import c15
     m = re.search(r"\[d(\d)_axis(-?\d)_target(-?\d)\]", ob.id)
     d, axis, target = (int(m.group(1)), int(m.group(2)), int(m.group(3))) if m else (2, 0, -1)
-    shapes = {1: [(7,), (2,), (1,), (0,)], 2: [(7, 3), (2, 5), (1, 4), (3, 1)], 3: [(2, 5, 3), (3, 2, 4), (1, 1, 6)]}[d]
+    # (an EMPTY filtered axis is outside the property's quantifier - np.pad cannot extend it -, as in the stand-in's own enumeration)
+    shapes = {1: [(7,), (2,), (1,)], 2: [(7, 3), (2, 5), (1, 4), (3, 1)], 3: [(2, 5, 3), (3, 2, 4), (1, 1, 6)]}[d]
     pads = list(c15.DELTA_PADS) + list(getattr(c15, "DELTA_PADS_X", ()))
     out = []
     for shape in shapes:
